@@ -381,8 +381,14 @@ func fuzzProp[C any](f *testing.F, property, sub string, gen *rapid.Generator[C]
 	// seed corpus: the all-zero stream (minimal case) and a few fixed pseudo-random streams
 	f.Add([]byte{})
 	x := hashOf(property, sub)
-	for i := 0; i < 6; i++ {
-		buf := make([]byte, 512<<uint(i%3))
+	for i := 0; i < 9; i++ {
+		// 512 B .. 2 KiB, then 16, 32 and 64 KiB: a case of the larger generators (families of genomes, histories) consumes
+		// several thousand 8-byte draws, and a stream that runs dry is discarded
+		size := 512 << uint(i%3)
+		if i >= 6 {
+			size = 16384 << uint(i-6)
+		}
+		buf := make([]byte, size)
 		for j := 0; j+8 <= len(buf); j += 8 {
 			x = splitmix(x)
 			binary.LittleEndian.PutUint64(buf[j:], x)
